@@ -210,6 +210,16 @@ class CaseInsensitiveDefaultDict(CaseInsensitiveDict):
         except KeyError:
             return self.default_factory()
 
+    def pop(self, key, *default):
+        if default and key not in self:
+            return default[0]
+        return super(CaseInsensitiveDefaultDict, self).pop(key)
+
+    def lower(self):
+        result = type(self)(self.default_factory)
+        result.update(self.items_lower())
+        return result
+
 
 class OrderedCaseInsensitiveDict(CaseInsensitiveDict):
     """ An (incomplete) ordered case-insensitive dict.
